@@ -88,6 +88,25 @@ func rulesGlobalState(cx *Ctx, prop string) []Obligation {
 	var bad1 []string
 	used := map[string]bool{}
 	nFn := 0
+	// non-vacuity: the same matcher applied to the package initialisers (exempt) must find their global writes
+	nInitWrites := 0
+	for _, fn := range P.ModuleFuncsSorted() {
+		if !circuitPackage(fn) || !isInitFn(fn) {
+			continue
+		}
+		for _, b := range fn.Blocks {
+			for _, ins := range b.Instrs {
+				if st, ok := ins.(*ssa.Store); ok {
+					if _, ok := rootGlobal(st.Addr, 0); ok {
+						nInitWrites++
+					}
+				}
+			}
+		}
+	}
+	if nInitWrites == 0 {
+		return []Obligation{undecided(key, desc, "the matcher for writes to package-level variables found none even in the package initialisers: the rule would pass vacuously")}
+	}
 	for _, fn := range P.ModuleFuncsSorted() {
 		if !circuitPackage(fn) || isInitFn(fn) || len(fn.Blocks) == 0 {
 			continue
@@ -136,7 +155,7 @@ func rulesGlobalState(cx *Ctx, prop string) []Obligation {
 		ex = append(ex, g+" ("+globalStateExceptions[g]+")")
 	}
 	sort.Strings(ex)
-	return []Obligation{good(key, desc, fmt.Sprintf("%d functions scanned; tabled: %s", nFn, strings.Join(ex, "; ")))}
+	return []Obligation{good(key, desc, fmt.Sprintf("%d functions scanned (the matcher finds %d global writes in the exempt package initialisers); tabled: %s", nFn, nInitWrites, strings.Join(ex, "; ")))}
 }
 
 func rulesChipState(cx *Ctx, prop string) []Obligation {
@@ -294,6 +313,7 @@ func rulesHygiene(cx *Ctx, prop string) []Obligation {
 	obs = append(obs, rulesChipState(cx, prop)...)
 	obs = append(obs, ruleNoConstantFastPath(cx, prop)...)
 	obs = append(obs, ruleNoAliasingAppend(cx, prop)...)
+	obs = append(obs, ruleNoInPlaceWrite(cx, prop)...)
 	return obs
 }
 
@@ -304,6 +324,7 @@ func ruleNoRecover(cx *Ctx, prop string) []Obligation {
 	key := prop + "/refusal/not-recovered"
 	desc := "no circuit-definition code recovers from a panic: a shape refusal that is recovered leaves a circuit that is defined successfully with only the constraints emitted before the refusal"
 	var sites []string
+	nBuiltin := 0
 	for _, fn := range P.ModuleFuncsSorted() {
 		if !circuitPackage(fn) {
 			continue
@@ -314,8 +335,11 @@ func ruleNoRecover(cx *Ctx, prop string) []Obligation {
 				if !ok {
 					continue
 				}
-				if bi, ok := c.Common().Value.(*ssa.Builtin); ok && bi.Name() == "recover" {
-					sites = append(sites, P.Pos(ins.Pos())+" in "+P.FnName(fn))
+				if bi, ok := c.Common().Value.(*ssa.Builtin); ok {
+					nBuiltin++
+					if bi.Name() == "recover" {
+						sites = append(sites, P.Pos(ins.Pos())+" in "+P.FnName(fn))
+					}
 				}
 			}
 		}
@@ -324,7 +348,10 @@ func ruleNoRecover(cx *Ctx, prop string) []Obligation {
 		sort.Strings(sites)
 		return []Obligation{bad(key, desc, "recover() at "+strings.Join(sites, "; "))}
 	}
-	return []Obligation{good(key, desc, "no recover() in the circuit packages")}
+	if nBuiltin == 0 {
+		return []Obligation{undecided(key, desc, "no call of any builtin was found in the circuit packages: the rule would pass vacuously")}
+	}
+	return []Obligation{good(key, desc, fmt.Sprintf("no recover() among the %d builtin calls of the circuit packages", nBuiltin))}
 }
 
 // ruleNoConstantFastPath: gnark's test engine answers Compiler().ConstantValue with "not a constant" for every
@@ -335,6 +362,7 @@ func ruleNoConstantFastPath(cx *Ctx, prop string) []Obligation {
 	key := prop + "/NC/no-constant-fast-path"
 	desc := "no circuit code branches on Compiler().ConstantValue: a path taken only for compile-time constants is invisible to the test engine (which never reports a constant) and changes what the compiled circuit computes"
 	var sites []string
+	nFrontend := 0
 	for _, fn := range P.ModuleFuncsSorted() {
 		if !circuitPackage(fn) {
 			continue
@@ -346,8 +374,11 @@ func ruleNoConstantFastPath(cx *Ctx, prop string) []Obligation {
 					continue
 				}
 				m := c.Common().Method
-				if m.Name() == "ConstantValue" && m.Pkg() != nil && strings.HasPrefix(m.Pkg().Path(), "github.com/consensys/gnark/frontend") {
-					sites = append(sites, P.Pos(ins.Pos())+" in "+P.FnName(fn))
+				if m.Pkg() != nil && strings.HasPrefix(m.Pkg().Path(), "github.com/consensys/gnark/frontend") {
+					nFrontend++
+					if m.Name() == "ConstantValue" {
+						sites = append(sites, P.Pos(ins.Pos())+" in "+P.FnName(fn))
+					}
 				}
 			}
 		}
@@ -356,48 +387,114 @@ func ruleNoConstantFastPath(cx *Ctx, prop string) []Obligation {
 		sort.Strings(sites)
 		return []Obligation{undecided(key, desc, "ConstantValue is consulted at "+strings.Join(sites, "; ")+" (cannot show both paths compute the same value)")}
 	}
-	return []Obligation{good(key, desc, "no use of ConstantValue in the circuit packages")}
+	if nFrontend == 0 {
+		return []Obligation{undecided(key, desc, "no call through gnark's frontend interfaces was found in the circuit packages: the rule would pass vacuously")}
+	}
+	return []Obligation{good(key, desc, fmt.Sprintf("no use of ConstantValue among the %d calls through gnark's frontend interfaces in the circuit packages", nFrontend))}
 }
 
 // ruleNoAliasingAppend: append(x[a:b], …) writes into the backing array of x beyond b when capacity allows; if x is
 // data the function received (a parameter, a field of one) the caller's later elements are silently overwritten.
-func ruleNoAliasingAppend(cx *Ctx, prop string) []Obligation {
-	P := cx.P
-	key := prop + "/AP/no-aliasing-append"
-	desc := "no append onto a truncated view x[a:b] of data the function received: the appended elements would be written into the caller's backing array beyond b (later elements of the caller's list change silently)"
-	var rootedAtParam func(v ssa.Value, depth int) bool
-	rootedAtParam = func(v ssa.Value, depth int) bool {
-		if depth > 10 || v == nil {
-			return false
+// The same happens one call further away: a function that appends onto its slice parameter, called with a truncated
+// view x[a:b] of a longer list (ReduceWithPowers(openings.QuotientPolys[s:e], …)).
+func rootedAtParamD(v ssa.Value, depth int) (*ssa.Parameter, bool) {
+	if depth > 10 || v == nil {
+		return nil, false
+	}
+	switch x := v.(type) {
+	case *ssa.Parameter:
+		return x, true
+	case *ssa.FieldAddr:
+		return rootedAtParamD(x.X, depth+1)
+	case *ssa.Field:
+		return rootedAtParamD(x.X, depth+1)
+	case *ssa.IndexAddr:
+		return rootedAtParamD(x.X, depth+1)
+	case *ssa.Index:
+		return rootedAtParamD(x.X, depth+1)
+	case *ssa.UnOp:
+		return rootedAtParamD(x.X, depth+1)
+	case *ssa.Slice:
+		return rootedAtParamD(x.X, depth+1)
+	case *ssa.ChangeType:
+		return rootedAtParamD(x.X, depth+1)
+	case *ssa.Alloc:
+		// a local copy of a parameter
+		for _, r := range *x.Referrers() {
+			if st, ok := r.(*ssa.Store); ok && st.Addr == ssa.Value(x) {
+				if p, ok := st.Val.(*ssa.Parameter); ok {
+					return p, true
+				}
+			}
 		}
-		switch x := v.(type) {
-		case *ssa.Parameter:
-			return true
-		case *ssa.FieldAddr:
-			return rootedAtParam(x.X, depth+1)
-		case *ssa.Field:
-			return rootedAtParam(x.X, depth+1)
-		case *ssa.IndexAddr:
-			return rootedAtParam(x.X, depth+1)
-		case *ssa.Index:
-			return rootedAtParam(x.X, depth+1)
-		case *ssa.UnOp:
-			return rootedAtParam(x.X, depth+1)
-		case *ssa.Slice:
-			return rootedAtParam(x.X, depth+1)
-		case *ssa.Alloc:
-			// a local copy of a parameter
-			for _, r := range *x.Referrers() {
-				if st, ok := r.(*ssa.Store); ok && st.Addr == ssa.Value(x) {
-					if _, ok := st.Val.(*ssa.Parameter); ok {
-						return true
+	}
+	return nil, false
+}
+
+// sliceParamItself: v is a slice-typed parameter, possibly re-sliced or passed through φs (not a field of one)
+func sliceParamItself(v ssa.Value, depth int) *ssa.Parameter {
+	if depth > 6 {
+		return nil
+	}
+	switch x := v.(type) {
+	case *ssa.Parameter:
+		if _, ok := x.Type().Underlying().(*types.Slice); ok {
+			return x
+		}
+	case *ssa.Slice:
+		return sliceParamItself(x.X, depth+1)
+	case *ssa.ChangeType:
+		return sliceParamItself(x.X, depth+1)
+	case *ssa.Phi:
+		for _, e := range x.Edges {
+			if p := sliceParamItself(e, depth+1); p != nil {
+				return p
+			}
+		}
+	}
+	return nil
+}
+
+// truncatedViewArg: some module call site of fn passes, for parameter index idx, a view x[a:b] (upper bound given,
+// no capacity limit) — or its own slice parameter that is in turn passed such a view (one more level)
+func truncatedViewArg(P *Program, fn *ssa.Function, idx int, depth int) (string, bool) {
+	for _, caller := range P.ModuleFuncsSorted() {
+		for _, b := range caller.Blocks {
+			for _, ins := range b.Instrs {
+				c, ok := ins.(ssa.CallInstruction)
+				if !ok || c.Common().StaticCallee() != fn || idx >= len(c.Common().Args) {
+					continue
+				}
+				a := c.Common().Args[idx]
+				for {
+					if ct, ok := a.(*ssa.ChangeType); ok {
+						a = ct.X
+						continue
+					}
+					break
+				}
+				if sl, ok := a.(*ssa.Slice); ok && sl.High != nil && sl.Max == nil {
+					if _, isArr := sl.X.Type().Underlying().(*types.Pointer); !isArr { // x[:] of a local array has no tail
+						return P.Pos(ins.Pos()), true
+					}
+				}
+				if p, ok := a.(*ssa.Parameter); ok && depth < 1 {
+					if at, ok := truncatedViewArg(P, caller, paramIndex(caller, p), depth+1); ok {
+						return at, true
 					}
 				}
 			}
 		}
-		return false
 	}
+	return "", false
+}
+
+func ruleNoAliasingAppend(cx *Ctx, prop string) []Obligation {
+	P := cx.P
+	key := prop + "/AP/no-aliasing-append"
+	desc := "no append onto a truncated view x[a:b] of data the function received — directly, or onto a slice parameter that a call site binds to such a view: the appended elements would be written into the caller's backing array beyond b (later elements of the caller's list change silently)"
 	var sites []string
+	nAppend, nOnView, nOnParam := 0, 0, 0
 	for _, fn := range P.ModuleFuncsSorted() {
 		if !circuitPackage(fn) {
 			continue
@@ -412,11 +509,20 @@ func ruleNoAliasingAppend(cx *Ctx, prop string) []Obligation {
 				if !ok || bi.Name() != "append" || len(c.Common().Args) < 1 {
 					continue
 				}
+				nAppend++
+				if p := sliceParamItself(c.Common().Args[0], 0); p != nil {
+					nOnParam++
+					if at, hazard := truncatedViewArg(P, fn, paramIndex(fn, p), 0); hazard {
+						sites = append(sites, P.Pos(ins.Pos())+" in "+P.FnName(fn)+" (parameter "+p.Name()+" is bound to a truncated view at "+at+")")
+						continue
+					}
+				}
 				sl, ok := c.Common().Args[0].(*ssa.Slice)
 				if !ok || sl.High == nil || sl.Max != nil {
 					continue
 				}
-				if rootedAtParam(sl.X, 0) {
+				nOnView++
+				if _, rooted := rootedAtParamD(sl.X, 0); rooted {
 					sites = append(sites, P.Pos(ins.Pos())+" in "+P.FnName(fn))
 				}
 			}
@@ -426,5 +532,104 @@ func ruleNoAliasingAppend(cx *Ctx, prop string) []Obligation {
 		sort.Strings(sites)
 		return []Obligation{bad(key, desc, "append onto a truncated view of received data at "+strings.Join(sites, "; "))}
 	}
-	return []Obligation{good(key, desc, "no such append in the circuit packages")}
+	if nAppend == 0 {
+		return []Obligation{undecided(key, desc, "no append was found in the circuit packages: the rule would pass vacuously")}
+	}
+	return []Obligation{good(key, desc, fmt.Sprintf("%d appends in the circuit packages, %d onto a truncated view, %d onto a slice parameter; none onto a view of received data", nAppend, nOnView, nOnParam))}
+}
+
+// ruleNoInPlaceWrite (IW): received lists are read-only. A gadget, gate or verifier function that stores into an
+// element of a slice it received (a parameter, a field of a parameter, a view of one) changes the caller's data — the
+// opened wires seen by the gates evaluated afterwards, the openings used by FRI later — while its own result is
+// right. Allowed: hint functions (their results slice is an out-parameter by gnark's contract) and functions all of
+// whose call sites pass a buffer made for the call (make / a local array).
+func ruleNoInPlaceWrite(cx *Ctx, prop string) []Obligation {
+	P := cx.P
+	key := prop + "/IW/received-lists-read-only"
+	desc := "no circuit code stores into an element of a list it received (parameter, field of a parameter, view of one), except into a buffer every call site makes for the call: the caller's data would change under later code while the function's own result stays right"
+	var sites []string
+	nStores, nElem := 0, 0
+	for _, fn := range P.ModuleFuncsSorted() {
+		if !circuitPackage(fn) || isInitFn(fn) || isHintSig(fn) {
+			continue
+		}
+		for _, b := range fn.Blocks {
+			for _, ins := range b.Instrs {
+				st, ok := ins.(*ssa.Store)
+				if !ok {
+					continue
+				}
+				nStores++
+				ia, ok := st.Addr.(*ssa.IndexAddr)
+				if !ok {
+					continue
+				}
+				if _, isSl := ia.X.Type().Underlying().(*types.Slice); !isSl {
+					continue
+				}
+				nElem++
+				p, rooted := rootedAtParamD(ia.X, 0)
+				if !rooted {
+					continue
+				}
+				// the receiver's own fields (a chip's buffers) are the chip-state rule's business
+				if fn.Signature.Recv() != nil && len(fn.Params) > 0 && p == fn.Params[0] {
+					continue
+				}
+				if freshAtAllCallSites(P, fn, paramIndex(fn, p)) {
+					continue
+				}
+				sites = append(sites, P.Pos(ins.Pos())+" in "+P.FnName(fn)+" (through "+p.Name()+")")
+			}
+		}
+	}
+	if len(sites) > 0 {
+		sort.Strings(sites)
+		return []Obligation{bad(key, desc, "in-place write into received data at "+strings.Join(dedup(sites), "; "))}
+	}
+	if nElem == 0 {
+		return []Obligation{undecided(key, desc, "no store into a slice element was found in the circuit packages: the rule would pass vacuously")}
+	}
+	return []Obligation{good(key, desc, fmt.Sprintf("%d stores examined, %d into slice elements, none into a received list", nStores, nElem))}
+}
+
+// freshAtAllCallSites: fn is called only statically from the module, and every call passes for parameter idx a buffer
+// made for the call (make, a slice of a local array, nil)
+func freshAtAllCallSites(P *Program, fn *ssa.Function, idx int) bool {
+	if idx < 0 {
+		return false
+	}
+	n := 0
+	for _, caller := range P.ModuleFuncsSorted() {
+		for _, b := range caller.Blocks {
+			for _, ins := range b.Instrs {
+				c, ok := ins.(ssa.CallInstruction)
+				if !ok {
+					continue
+				}
+				if c.Common().IsInvoke() && c.Common().Method != nil && fn.Object() != nil && c.Common().Method.Name() == fn.Name() {
+					return false // may be reached through an interface: the argument is whatever the caller holds
+				}
+				if c.Common().StaticCallee() != fn || idx >= len(c.Common().Args) {
+					continue
+				}
+				n++
+				a := stripCopies(c.Common().Args[idx])
+				switch x := a.(type) {
+				case *ssa.MakeSlice:
+				case *ssa.Const:
+					if x.Value != nil {
+						return false
+					}
+				case *ssa.Slice:
+					if _, ok := x.X.(*ssa.Alloc); !ok {
+						return false
+					}
+				default:
+					return false
+				}
+			}
+		}
+	}
+	return n > 0
 }
